@@ -155,24 +155,24 @@ CHECKS = {
 # workloads added after rounds 8-10 of independently written breaking changes (appended to the level text)
 ADDENDA = {
     "C09": " Round 14: OAAHOC with the tke argument omitted (documented default 1.0); a third of the calls repeated under warnings / floating-point flags escalated to errors.",
-    "C12": " Round 12: a 40-level output on 256 x 256 retained components in both precisions and both modes (every eighth history). Round 13: big-endian / read-only spellings of the same values (a request rejected in a fresh process must be rejected after other solves too; repo fix 2571e16). Round 14: working-directory changes and plan-cache expiry in the histories; every fourth history ends with four Python threads issuing solves concurrently.",
+    "C12": " Round 12: a 40-level output on 256 x 256 retained components in both precisions and both modes (every eighth history). Round 13: big-endian / read-only spellings of the same values (a request rejected in a fresh process must be rejected after other solves too; repo fix 2571e16). Round 14: working-directory changes and plan-cache expiry in the histories; every fourth history ends with four Python threads issuing solves concurrently. Round 15: profile tuples whose arrays are separate copies / one shared object.",
     "C07": " Round 12: a background concentration under transposition and both rescalings (unchanged by a change of length unit, divided by a change of velocity unit). Round 13: mirrored towers given at negative coordinates; anisotropic columns with Kx = Ky at the top node only (shared generator).",
-    "C01": " Later additions: wind veering with height, regional domains, families with height-independent wind / Kx, growth tuned to 13-18.5 on 32-layer grids (half of these request single-precision output, with a storage allowance of N*eps32*max|field| per component), wind exactly along a grid axis in an eighth of the cases, the unit source in a random cell (phase ramp compensated) in half of them, the three output heights requested in rotated order. Round 14 (every check): every fourth shard runs the package at DEBUG verbosity.",
+    "C01": " Later additions: wind veering with height, regional domains, families with height-independent wind / Kx, growth tuned to 13-18.5 on 32-layer grids (half of these request single-precision output, with a storage allowance of N*eps32*max|field| per component), wind exactly along a grid axis in an eighth of the cases, the unit source in a random cell (phase ramp compensated) in half of them, the three output heights requested in rotated order. Round 14 (every check): every fourth shard runs the package at DEBUG verbosity. Round 15 (every check): an exception raised inside the package for a generated input is a verdict, not a harness error.",
     "C02": " Later additions: measurement points handed over as float32 scalars / arrays wherever the coordinates are exactly float32 numbers (a third of the grids have cell sizes in multiples of 1/16 m), switches as numpy.bool_ / 0-1, utils.point_measurement under C / Fortran / transposed / strided layouts, the analytic branch. Round 13 (call path, every relation check): source, heights and profiles spelled as big-endian or read-only arrays; a call rejected half-way in the other precision precedes half of the decoy cases. Round 14: the forward run centred on the tower (value read at the window centre) for flux maps with a zero rim.",
     "C03": " Later additions: a case kind with grids one cell wide in x or y (zero, sub-cell and wide halos: unit footprint sum, mean flux), zero sources, footprint-mode background, towers beside the map under a halo. Round 13: halo = pad / crop on grids one cell wide.",
     "C04": " Later additions: zero-source and footprint-mode background clauses; the footprint switch spelled as numpy.bool_ or 1; operands and combinations that are exactly uniform.",
     "C05": " Later additions: in 40 % of the closed-form cases one coefficient (u, v, Kx or Ky) is exactly zero at every node; components damped by e^-750 .. e^-1500; mixed mode requests; calm wind, surface level and deep columns in the order study; an anomalously small error at 2n is judged by the least-squares order over four resolutions (>= 2.6); every other refinement requests two levels in non-ascending order. Round 12: large spectra (more than 512 x 512 retained components, with and without truncation): every resolved component of the numerical mode converges to the closed form from 2n to 8n layers. Round 13: the closed-form clause also in physical space with the unpaired cut-off components included (retained set -m/2 .. m/2-1).",
     "C06": " Later additions: re-centring judged on the whole window under a halo (field of a compact source moved the other way, cells fed from the halo included); tower translation under a halo incl. towers outside the map; re-centring on points west / south of the map. Round 12: a tower moved by whole cells by editing its local coordinates, through run_bldfm_single / run_bldfm_multitower (with and without a reference origin).",
-    "C08": " Later additions: unsigned and 16-bit integer inputs, references beside the meridians, slow-veer and cached series run twice with grid comparison, configurations re-centred with dataclasses.replace. Round 12: several output levels / the full column through the interface (the slice of the measurement node is the footprint); elongated windows (aspect 3-4.5) with the default halo; the centre of mass of the whole footprint within 15 degrees for default-halo runs (observed <= 9.0). Round 13: calm records (speed exactly zero); the direction sweep also through run_bldfm_parallel (time, 2 workers). Round 14: a light-wind record (0.42 m/s) inside the direction sweep.",
+    "C08": " Later additions: unsigned and 16-bit integer inputs, references beside the meridians, slow-veer and cached series run twice with grid comparison, configurations re-centred with dataclasses.replace. Round 12: several output levels / the full column through the interface (the slice of the measurement node is the footprint); elongated windows (aspect 3-4.5) with the default halo; the centre of mass of the whole footprint within 15 degrees for default-halo runs (observed <= 9.0). Round 13: calm records (speed exactly zero); the direction sweep also through run_bldfm_parallel (time, 2 workers). Round 14: a light-wind record (0.42 m/s) inside the direction sweep. Round 15: wind directions given a full turn (or two) off.",
     "C10": " Later additions: unsigned level dtypes and an interface-series clause over levels 0 .. nz+1.",
     "C11": " Later additions: a coordinate clause (returned grid against the stated cell centres, 65536 pairs per quick run) and zero-source pairs under a halo. Round 12: what lies strictly beyond the cut-off of a truncated axis is removed (also when the other axis is requested at exactly the padded size). Round 14: dispersion runs re-centred on a point west and south of the map in the halo = pad / crop clause.",
-    "C13": " Later additions: analytic combined with every closure; timestamps as datetime / date objects (PyYAML's reading of unquoted dates), integers and permutations; section-less configurations varied in place; both level options; towers outside the map; user-supplied flux on a finer grid; tower names that read as numbers, truth words or dates. Round 12: mode requests above the grid along one axis and below it along the other. Round 13: towers handed over as modified copies (same name, other height and position). Round 14: YAML files in a sub-folder, addressed absolutely and as pathlib.Path; output sections.",
+    "C13": " Later additions: analytic combined with every closure; timestamps as datetime / date objects (PyYAML's reading of unquoted dates), integers and permutations; section-less configurations varied in place; both level options; towers outside the map; user-supplied flux on a finer grid; tower names that read as numbers, truth words or dates. Round 12: mode requests above the grid along one axis and below it along the other. Round 13: towers handed over as modified copies (same name, other height and position). Round 14: YAML files in a sub-folder, addressed absolutely and as pathlib.Path; output sections. Round 15: closure OAAHOC; hand-written YAML with anchors and merge keys; a rejected file whose dictionary is accepted is a violation.",
     "C14": " Later additions: cold cases (sub-process with an empty kernel cache), a live worker-pool monitor, dispersion and src_loc configurations, slowly drifting series, user flux through the serial drivers, 'both' strategy with unequal tower and step counts; 30 % of the parallel calls follow a call that raised (mistyped strategy with a flux map). Round 12: entries are independent arrays - what is done to one entry in place leaves every other entry as it was. Round 13: masts moved by hand; the caller's configuration comes back unchanged; a missing entry is a violation. Round 14: one-row domains; a second parallel run on the same configuration object after in-place edits; the cache directory is removed between driver calls and a driver exception is a verdict.",
-    "C15": " Later additions: pad-class variants of one request, recovery probes after a damaged entry, long level lists, mode requests above / clamped to the grid, swapped profiles, requests written with the same digits ([1, 12] / [11, 2]; level 1 on 26x40 / level 12 on 6x40). Round 14: one-row / one-column multi-level requests; another client's lookup injected between a miss and its store; an entry left by another writer with the documented positional put(); every second damaged-entry probe under warnings escalated to errors.",
-    "C16": " Later additions: recurring-entry series judged on the returned list, label kinds, configurations without a reference origin. Round 14: integer labels that are also positions; sparse forcings parsed right after full ones; light-wind and calm records.",
-    "C17": " Later additions: origins spelled as whole degrees (int), numpy scalars, 0 (equator / prime meridian); float32 station tables; 2-D offset tables that are not a meshgrid; towers a few metres from the origin. Round 12: closed outlines (first point repeated) as a column / a row, point clouds with repeated rows; configurations with and without the solver / parallel / output sections (every switch drawn). Round 14: an implausible configuration built before the good one; a valid configuration that is rejected is a violation.",
+    "C15": " Later additions: pad-class variants of one request, recovery probes after a damaged entry, long level lists, mode requests above / clamped to the grid, swapped profiles, requests written with the same digits ([1, 12] / [11, 2]; level 1 on 26x40 / level 12 on 6x40). Round 14: one-row / one-column multi-level requests; another client's lookup injected between a miss and its store; an entry left by another writer with the documented positional put(); every second damaged-entry probe under warnings escalated to errors. Round 15: the cache directory on another filesystem than the temporary directory's (skipped and counted where none exists); a single-precision multi-level request.",
+    "C16": " Later additions: recurring-entry series judged on the returned list, label kinds, configurations without a reference origin. Round 14: integer labels that are also positions; sparse forcings parsed right after full ones; light-wind and calm records. Round 15: command-line runs with three towers; out-of-range wind directions in series.",
+    "C17": " Later additions: origins spelled as whole degrees (int), numpy scalars, 0 (equator / prime meridian); float32 station tables; 2-D offset tables that are not a meshgrid; towers a few metres from the origin. Round 12: closed outlines (first point repeated) as a column / a row, point clouds with repeated rows; configurations with and without the solver / parallel / output sections (every switch drawn). Round 14: an implausible configuration built before the good one; a valid configuration that is rejected is a violation. Round 15: configurations assembled from the dataclasses - the caller's own tower objects come out located.",
     "C18": " Later additions: label kinds that read as numbers ('0030', '1e3', '12.0'), datetime labels, configurations without a reference origin, unsorted level heights, sibling file names of a parameter sweep, sentinel and extreme values. Round 13: timezone-aware and sub-second stamps; result sets that are a non-prefix subset of the configured steps. Round 14: the file removed / the working directory changed between the load and the first access of a field.",
-    "C19": " Later additions: near-cardinal and integer-typed wind directions, infinite L, a receptor on a cell centre, every multiple of 90 degrees from -360 to 720. Round 14: receptors on an edge or corner of the raster, or beside it.",
+    "C19": " Later additions: near-cardinal and integer-typed wind directions, infinite L, a receptor on a cell centre, every multiple of 90 degrees from -360 to 720. Round 14: receptors on an edge or corner of the raster, or beside it. Round 15: wind-aligned rasters centred on the receptor; smoothed roughness length within the range of its window's raw estimates, with screened outliers in the series.",
     "C20": " Later additions: a per-cell relative clause (each value within 16 n eps of the bounds of the cell's own sum) and fields spanning 30 decades; base fields of signed / unsigned integer type (rank maps, class codes incl. 0). Round 13: base fields with infinite entries and log(f) of a field with exact zeros. Round 14: stacks of levels handed over whole; rasters with one or both coordinate axes descending.",
 }
 
